@@ -788,8 +788,15 @@ class Engine:
             elif isinstance(v, Ref) and isinstance(st.heap[v.oid], Arr):
                 a = st.heap[v.oid]
                 self.emit(self.site('unpack', tgt), st, a.shape[0] == len(tgt.elts))
-                items = [a[k] if a.ndim == 1 else None for k in range(len(tgt.elts))]
-                if a.ndim != 1:
+                if a.ndim == 1:
+                    items = [a[k] for k in range(len(tgt.elts))]
+                elif a.ndim == 2 and not isinstance(a.term, tuple):
+                    # rows of a 2-d array (NumPy hands out views: a store into one of them is outside the subset, see store())
+                    items = []
+                    for k in range(len(tgt.elts)):
+                        j_ = z3.Int('j!row')
+                        items.append(self.new_obj(st, Arr(z3.Lambda([j_], a[z3.IntVal(k), j_]), (a.shape[1],), a.kind, meta={'view_of': v.oid})))
+                else:
                     raise Unsupported('unpacking an n-d array')
             else:
                 raise Unsupported('unpacking %r' % (v,))
